@@ -592,7 +592,7 @@ fn check<S: Sim>(o: Opts) {
                     break;
                 }
                 let (plan, mode, entropy) = plan_for::<S>(seed, &spec, tier, run, &mode_override);
-                let r = execute_isolated::<S>(&plan, entropy);
+                let mut r = execute_isolated::<S>(&plan, entropy);
                 if let Some(e) = &r.harness_error {
                     let mut he = harness_err.lock().unwrap();
                     if he.is_none() {
@@ -605,7 +605,26 @@ fn check<S: Sim>(o: Opts) {
                 if run % 97 == 0 {
                     let r2 = execute_isolated::<S>(&plan, entropy);
                     local.determinism_rechecks += 1;
-                    if r2.log_fp() != r.log_fp() || r2.violations != r.violations {
+                    let unlisted = |rep: &RunReport| -> bool {
+                        relevant(rep, spec.id).iter().any(|v| {
+                            let mut vv = (*v).clone();
+                            if vv.property == "*" {
+                                vv.property = spec.id.to_string();
+                            }
+                            !known_for.iter().any(|(_, k)| matches_known(&vv, k))
+                        })
+                    };
+                    let differs = r2.log_fp() != r.log_fp() || r2.violations != r.violations;
+                    if differs && (unlisted(&r) || unlisted(&r2)) {
+                        // Two executions of one plan differ and one of them violates the property: code under test
+                        // that keeps state across runs (a process-global cache, say) makes runs of one process
+                        // interfere. The violation is followed up like any other: it is minimised and must reproduce
+                        // in a fresh, single-run process before it is reported (else: harness error).
+                        if !unlisted(&r) {
+                            r = r2;
+                        }
+                        local.probes.entry("violation_in_one_of_two_executions_of_a_plan".into()).and_modify(|c| *c += 1).or_insert(1);
+                    } else if differs {
                         let mut he = harness_err.lock().unwrap();
                         if he.is_none() {
                             let diff = r
